@@ -447,10 +447,12 @@ impl Run {
                 let out = call(pool, || m.reload_until(&anchors), |_| Value::Null);
                 self.emit("ReloadUntil", r, json!({"heads": hs.iter().cloned().collect::<Vec<_>>()}), &out, json!({}));
             }
-            "resolve" | "resolve_any" => {
+            "resolve" | "resolve_any" | "resolve_array" => {
                 let m = &self.reps[r].as_ref().unwrap().melda;
                 let objs: Vec<String> = if name == "resolve" {
                     m.in_conflict().into_iter().collect()
+                } else if name == "resolve_array" {
+                    m.in_conflict().into_iter().filter(|o| o.starts_with('^')).collect()
                 } else {
                     m.get_all_objects().into_iter().collect()
                 };
@@ -459,7 +461,7 @@ impl Run {
                 }
                 let o = objs[op["o"].as_u64().unwrap_or(0) as usize % objs.len()].clone();
                 let mut leaves: Vec<String> = vec![];
-                if name == "resolve" {
+                if name != "resolve_any" {
                     if let Ok(w) = m.get_winner(&o) {
                         leaves.push(w);
                     }
@@ -965,6 +967,13 @@ pub fn random_spec(run: u64, seed: u64, profile: &str) -> Value {
                 let r = p.below(nrep);
                 ops.push(json!({"op": "resolve", "r": r, "o": p.below(8), "leaf": p.below(4)}));
             }
+            if p.chance(1, 2) {
+                let r = p.below(nrep);
+                ops.push(json!({"op": "resolve_array", "r": r, "o": p.below(4), "leaf": p.below(4)}));
+                if p.chance(1, 2) {
+                    ops.push(json!({"op": "commit", "r": r, "seed": p.next()}));
+                }
+            }
             if p.chance(1, 4) {
                 let r = p.below(nrep);
                 ops.push(json!({"op": "snapshot", "r": r}));
@@ -1005,7 +1014,12 @@ pub fn random_spec(run: u64, seed: u64, profile: &str) -> Value {
                 80..=84 => json!({"op": "unstage", "r": r}),
                 85..=89 => json!({"op": "export_replay", "r": r}),
                 90..=93 => json!({"op": "reopen", "r": r}),
-                94..=96 => json!({"op": "resolve", "r": r, "o": p.below(4), "leaf": p.below(3)}),
+                94..=95 => json!({"op": "resolve", "r": r, "o": p.below(4), "leaf": p.below(3)}),
+                96..=98 => {
+                    ops.push(json!({"op": "unstage", "r": r}));
+                    ops.push(json!({"op": "copy", "r": r, "s": 1 - r, "n": p.below(8)}));
+                    json!({"op": "refresh", "r": r})
+                }
                 _ => json!({"op": "sync", "r": r, "s": 1 - r}),
             };
             ops.push(op);
@@ -1040,6 +1054,11 @@ pub fn random_spec(run: u64, seed: u64, profile: &str) -> Value {
             }
             for r in 1..nrep {
                 ops.push(json!({"op": "sync", "r": 0, "s": r}));
+            }
+            if p.chance(1, 2) {
+                // a committed resolution becomes part of the history that is travelled later
+                ops.push(json!({"op": "resolve", "r": 0, "o": p.below(8), "leaf": p.below(4)}));
+                ops.push(json!({"op": "commit", "r": 0, "seed": p.next()}));
             }
             if p.chance(1, 2) {
                 ops.push(json!({"op": "edit", "r": 0, "seed": p.next()}));
